@@ -340,13 +340,14 @@ def CASES(tier, seed):
             nonunitary = ['Sp', 'Sz']
             terms = [[('Sp', 0), ('Sm', 1)], [('Sz', 1), ('Sp', 0), ('Sz', 0)]] + ([[('Sm', 2), ('Sp', 0)]] if L >= 3 else [])
         elif kind.startswith('ferm'):
-            unitary_names = ['JW'] if bc != 'infinite' else ['Id']  # ('JW' itself carries a JW string: refused for infinite MPS)
+            # 'JW' itself carries a JW string: refused for infinite MPS and where the signs cannot be read off the charges
+            unitary_names = ['JW'] if (bc != 'infinite' and kind != 'ferm') else ['Id']
             nonunitary = ['N', 'Cd'] if bc == 'finite' and kind != 'ferm' else ['N']
             terms = [[('Cd', 0), ('C', 1)], [('C', 1), ('Cd', 0)], [('N', 0), ('Cd', 1), ('C', 1)]] + ([[('Cd', 2), ('C', 0)]] if L >= 3 else [])
             if bc == 'finite' and kind != 'ferm':
                 terms += [[('Cd', 1)], [('C', 0), ('N', 1)]] + ([[('Cd', 2), ('N', 0)]] if L >= 3 else [])  # odd number of JW operators
         else:
-            unitary_names = ['JW']
+            unitary_names = ['JW'] if kind == 'shfNSz' else ['Id']
             nonunitary = ['Nu']
             terms = [[('Cdu', 0), ('Cu', 1)], [('Cd', 1), ('Cdd', 0)], [('Cdu', 1)]]
         for forms in ('B', mixed):
